@@ -67,9 +67,9 @@ Proof.
   intros H Hi. apply emit_ok in H. destruct H as [Hl ->]. unfold Ext. cbn.
   rewrite app_nil_r. repeat split; auto; lia.
 Qed.
-Lemma emit_do k v rest s :
-  (length (toks s) < 64)%nat -> emit k v rest s = Ok (Lst rest (Tok k v :: toks s) (last s)).
-Proof. intros H. unfold emit, token_cap. apply Nat.leb_gt in H. now rewrite H. Qed.
+Lemma emit_do k v rest i ts lf :
+  (length ts < 64)%nat -> emit k v rest (Lst i ts lf) = Ok (Lst rest (Tok k v :: ts) lf).
+Proof. intros H. unfold emit, token_cap. cbn [toks last]. apply Nat.leb_gt in H. now rewrite H. Qed.
 
 (* ---- lex_run ---- *)
 Lemma lex_run_sound k p s s' :
@@ -160,4 +160,392 @@ Proof.
   split; [congruence|exact Hs].
 Qed.
 
+
+(* ---- segments ---- *)
+Lemma Ext_inp_one s k v s' : Ext s [Tok k v] s' -> inp s = v ++ inp s'.
+Proof. intros [_ E]. rewrite E. cbn. now rewrite app_nil_r. Qed.
+
+Definition SegSpec (SG : list token -> bool -> Prop) (f : lst -> outcome lst) : Prop :=
+  forall s s', last s = false -> f s = Ok s' -> exists new b, Ext s new s' /\ SG new b /\ last s' = b.
+
+Lemma lex_segment_sound (SG : list token -> bool -> Prop) lexvar :
+  (forall ts b, PSeg ts b -> SG ts b) ->
+  (forall lv, lexvar = Some lv -> SegSpec SG lv) ->
+  SegSpec SG (lex_segment isLetter isNumber lexvar).
+Proof.
+  intros Hsub Hlv s s' Hl H. unfold lex_segment in H.
+  destruct (inp s) as [|r rest] eqn:Ei; [discriminate|].
+  destruct (isLetter r) eqn:El.
+  - destruct (lex_run_sound _ _ _ _ H) as (v & A & Hv & Hp & _ & B & _).
+    exists [Tok TLiteral v], false. split; [exact A|]. split; [|congruence].
+    apply Hsub. constructor. unfold lit_ok.
+    pose proof (Ext_inp_one _ _ _ _ A) as E. rewrite Ei in E.
+    destruct v as [|x v]; [contradiction|]. cbn in E. inversion E; subst x. now rewrite El, Hp.
+  - destruct (N.eqb_spec r 42) as [->|Hne42].
+    + destruct (hd_is 42 rest) as [rest'|] eqn:Eh.
+      * apply hd_is_some in Eh. subst rest.
+        destruct (emit TStarStar [42; 42] rest' s) as [s1| | |] eqn:E1; try discriminate. cbn [bind] in H.
+        inversion H; subst s'. clear H.
+        assert (Ei' : inp s = [42; 42] ++ rest') by (rewrite Ei; reflexivity).
+        destruct (emit_Ext _ _ _ _ _ E1 Ei') as (A & B & C & D).
+        exists [tStarStar], true. split; [|split; [apply Hsub; constructor|reflexivity]].
+        destruct A as [A1 A2]. split; cbn in *; auto.
+      * assert (Ei' : inp s = [42] ++ rest) by (rewrite Ei; reflexivity).
+        destruct (emit_Ext _ _ _ _ _ H Ei') as (A & B & C & D).
+        exists [tStar], false. split; [exact A|]. split; [apply Hsub; constructor|congruence].
+    + destruct (N.eqb_spec r 123) as [->|Hne]; [|discriminate].
+      destruct lexvar as [lv|]; [|discriminate].
+      apply (Hlv lv eq_refl s s' Hl H).
+Qed.
+
+Lemma lex_segments_sound (SG : list token -> bool -> Prop) lexvar fuel :
+  SegSpec SG (lex_segment isLetter isNumber lexvar) ->
+  forall s s', last s = false -> lex_segments isLetter isNumber fuel lexvar s = Ok s' ->
+  exists new b, Ext s new s' /\ SegsG SG new b /\ last s' = b /\ hd_is 47 (inp s') = None.
+Proof.
+  intros Hseg. induction fuel as [|f IH]; intros s s' Hl H; cbn in H; [discriminate|].
+  destruct (lex_segment isLetter isNumber lexvar s) as [s1| | |] eqn:E1; try discriminate. cbn [bind] in H.
+  destruct (Hseg s s1 Hl E1) as (new1 & b1 & A1 & G1 & B1).
+  destruct (hd_is 47 (inp s1)) as [rest|] eqn:Eh.
+  - destruct (last s1) eqn:Els; [discriminate|].
+    destruct (emit TSlash [47] rest s1) as [s2| | |] eqn:E2; try discriminate. cbn [bind] in H.
+    apply hd_is_some in Eh.
+    destruct (emit_Ext _ _ _ _ _ E2 Eh) as (A2 & B2 & C2 & _).
+    assert (Hl2 : last s2 = false) by congruence.
+    destruct (IH s2 s' Hl2 H) as (new2 & b2 & A3 & G3 & B3 & Hstop).
+    exists (new1 ++ tSlash :: new2), b2.
+    split; [eapply Ext_trans; [exact A1|]; apply (Ext_trans _ [tSlash] _ _ _ A2 A3)|].
+    split; [|auto]. apply Ss_cons; auto. now subst b1.
+  - inversion H; subst s'. exists new1, b1. split; [exact A1|]. split; [now apply Ss_one|]. split; auto.
+Qed.
+
+Lemma lex_variable_sound fuel : SegSpec Seg (lex_variable isLetter isNumber fuel).
+Proof.
+  intros s s' Hl H. unfold lex_variable in H.
+  destruct (hd_is 123 (inp s)) as [rest|] eqn:Eh; [|discriminate]. apply hd_is_some in Eh.
+  destruct (emit TVarStart [123] rest s) as [s1| | |] eqn:E1; try discriminate. cbn [bind] in H.
+  destruct (emit_Ext _ _ _ _ _ E1 Eh) as (A1 & B1 & C1 & _).
+  destruct (lex_field_path isLetter isNumber fuel s1) as [s2| | |] eqn:E2; try discriminate. cbn [bind] in H.
+  destruct (lex_field_path_sound _ _ _ E2) as (fp & A2 & Hfp & B2 & _).
+  destruct (hd_is 61 (inp s2)) as [rest2|] eqn:Eh2.
+  - apply hd_is_some in Eh2.
+    destruct (emit TEqual [61] rest2 s2) as [s3| | |] eqn:E3; try discriminate. cbn [bind] in H.
+    destruct (emit_Ext _ _ _ _ _ E3 Eh2) as (A3 & B3 & C3 & _).
+    destruct (lex_segments isLetter isNumber fuel None s3) as [s4| | |] eqn:E4; try discriminate. cbn [bind] in H.
+    assert (Hl3 : last s3 = false) by congruence.
+    assert (HS : SegSpec PSeg (lex_segment isLetter isNumber None)).
+    { apply lex_segment_sound; auto. intros lv E; discriminate. }
+    destruct (lex_segments_sound PSeg None fuel HS s3 s4 Hl3 E4) as (ps & b & A4 & G4 & B4 & _).
+    destruct (hd_is 125 (inp s4)) as [rest4|] eqn:Eh4; [|discriminate]. apply hd_is_some in Eh4.
+    destruct (emit_Ext _ _ _ _ _ H Eh4) as (A5 & B5 & C5 & _).
+    exists (tOpen :: fp ++ tEq :: ps ++ [tClose]), b.
+    split; [|split; [now apply S_varpat|congruence]].
+    change (tOpen :: fp ++ tEq :: ps ++ [tClose]) with ([tOpen] ++ fp ++ [tEq] ++ ps ++ [tClose]).
+    eapply Ext_trans; [exact A1|]. eapply Ext_trans; [exact A2|]. eapply Ext_trans; [exact A3|].
+    eapply Ext_trans; [exact A4|exact A5].
+  - destruct (hd_is 125 (inp s2)) as [rest2|] eqn:Eh3; [|discriminate]. apply hd_is_some in Eh3.
+    destruct (emit_Ext _ _ _ _ _ H Eh3) as (A5 & B5 & C5 & _).
+    exists (tOpen :: fp ++ [tClose]), false.
+    split; [|split; [now apply S_var|congruence]].
+    change (tOpen :: fp ++ [tClose]) with ([tOpen] ++ fp ++ [tClose]).
+    eapply Ext_trans; [exact A1|]. eapply Ext_trans; [exact A2|exact A5].
+Qed.
+
+Lemma is_nil_true {A} (l : list A) : is_nil l = true -> l = [].
+Proof. destruct l; [auto|discriminate]. Qed.
+
+(* ---- the template lexer is sound for the grammar ---- *)
+Theorem lex_template_sound t toks0 :
+  lex_template isLetter isNumber t = Ok toks0 ->
+  Tmpl toks0 /\ spell toks0 = t /\ (length toks0 <= 64)%nat.
+Proof.
+  unfold lex_template. destruct (lex_template_st isLetter isNumber t) as [sf| | |] eqn:E; try discriminate.
+  cbn [bind]. intros H. inversion H; subst toks0. clear H.
+  unfold lex_template_st in E.
+  destruct (hd_is 47 t) as [rest|] eqn:Eh; [|discriminate]. apply hd_is_some in Eh.
+  set (s0 := Lst t [] false) in *.
+  destruct (emit TSlash [47] rest s0) as [s1| | |] eqn:E1; try discriminate. cbn [bind] in E.
+  assert (Ei0 : inp s0 = [47] ++ rest) by (cbn; exact Eh).
+  destruct (emit_Ext _ _ _ _ _ E1 Ei0) as (A1 & B1 & C1 & _).
+  destruct (lex_segments isLetter isNumber (S (length t)) (Some (lex_variable isLetter isNumber (S (length t)))) s1) as [s2| | |] eqn:E2;
+    try discriminate. cbn [bind] in E.
+  assert (HS : SegSpec Seg (lex_segment isLetter isNumber (Some (lex_variable isLetter isNumber (S (length t)))))).
+  { apply lex_segment_sound; [intros; now apply S_plain|]. intros lv Elv. inversion Elv; subst lv. apply lex_variable_sound. }
+  assert (Hl1 : last s1 = false) by (rewrite B1; reflexivity).
+  destruct (lex_segments_sound Seg _ _ HS s1 s2 Hl1 E2) as (ss & b & A2 & G2 & B2 & _).
+  assert (Fin : forall new, Ext s0 new sf -> (length (toks sf) <= 64)%nat -> inp sf = [] ->
+                 spell (rev (toks sf)) = t /\ rev (toks sf) = new).
+  { intros new [F1 F2] _ Hi. cbn in F1, F2. rewrite app_nil_r in F1. rewrite F1, rev_involutive. split; auto.
+    rewrite F2, Hi, app_nil_r. reflexivity. }
+  destruct (hd_is 58 (inp s2)) as [rest2|] eqn:Eh2.
+  - apply hd_is_some in Eh2.
+    destruct (emit TVerb [58] rest2 s2) as [s3| | |] eqn:E3; try discriminate. cbn [bind] in E.
+    destruct (emit_Ext _ _ _ _ _ E3 Eh2) as (A3 & B3 & C3 & _).
+    unfold lex_verb in E.
+    destruct (Lexer.lex_run TLiteral is_literal s3) as [s4| | |] eqn:E4; try discriminate. cbn [bind] in E.
+    destruct (lex_run_sound _ _ _ _ E4) as (v & A4 & Hv & Hp & _ & B4 & _).
+    destruct (inp s4) as [|x r4] eqn:Ei4; [|discriminate].
+    assert (Ei4' : inp s4 = [] ++ []) by (rewrite Ei4; reflexivity).
+    destruct (emit_Ext _ _ _ _ _ E Ei4') as (A5 & B5 & C5 & D5).
+    assert (AA : Ext s0 ([tSlash] ++ ss ++ [tColon] ++ [Tok TLiteral v] ++ [tEOF]) sf).
+    { eapply Ext_trans; [exact A1|]. eapply Ext_trans; [exact A2|]. eapply Ext_trans; [exact A3|].
+      eapply Ext_trans; [exact A4|exact A5]. }
+    destruct (Fin _ AA D5 C5) as [F1 F2]. rewrite F2. rewrite F2 in F1.
+    split; [|split; [exact F1|]].
+    + apply (T_verb _ _ ss b v G2). unfold verb_ok. rewrite Hp. destruct v; [contradiction|reflexivity].
+    + rewrite <- F2, rev_length. exact D5.
+  - destruct (is_nil (inp s2)) eqn:En; [|discriminate]. apply is_nil_true in En.
+    assert (Ei2' : inp s2 = [] ++ []) by (rewrite En; reflexivity).
+    destruct (emit_Ext _ _ _ _ _ E Ei2') as (A5 & B5 & C5 & D5).
+    assert (AA : Ext s0 ([tSlash] ++ ss ++ [tEOF]) sf).
+    { eapply Ext_trans; [exact A1|]. eapply Ext_trans; [exact A2|exact A5]. }
+    destruct (Fin _ AA D5 C5) as [F1 F2]. rewrite F2. rewrite F2 in F1.
+    split; [|split; [exact F1|]].
+    + apply (T_plain _ _ ss b G2).
+    + rewrite <- F2, rev_length. exact D5.
+Qed.
+
+
+(* ---- completeness: every derivation of at most 64 tokens is accepted ---- *)
+Section Complete.
+Hypothesis sane : Sane isLetter isNumber.
+
+Lemma sane_letter r : In r [42; 46; 47; 58; 61; 123; 125] -> isLetter r = false.
+Proof. intros H. now destruct (sane r H). Qed.
+Lemma sane_ident r : In r [42; 46; 47; 58; 61; 123; 125] -> is_ident r = false.
+Proof.
+  intros H. destruct (sane r H) as [A B]. unfold Lexer.is_ident. rewrite A, B.
+  cbn in H. repeat (destruct H as [ <- | H ]; [reflexivity|]). contradiction.
+Qed.
+Lemma sane_literal r : In r [42; 47; 58; 61; 123; 125] -> is_literal r = false.
+Proof.
+  intros H. unfold Lexer.is_literal. rewrite sane_ident.
+  - cbn in H. repeat (destruct H as [ <- | H ]; [reflexivity|]). contradiction.
+  - cbn in *. intuition.
+Qed.
+
+(* what may follow a segment: nothing, or one of / } : *)
+Definition Delim (rest : str) : Prop :=
+  match rest with [] => True | x :: _ => x = 47 \/ x = 125 \/ x = 58 end.
+Lemma Delim_literal rest : Delim rest -> stops is_literal rest.
+Proof. destruct rest as [|x r]; cbn; auto. intros [ -> | [ -> | -> ] ]; apply sane_literal; cbn; auto 10. Qed.
+Lemma Delim_nostar rest : Delim rest -> hd_is 42 rest = None.
+Proof. destruct rest as [|x r]; cbn; auto. intros [ -> | [ -> | -> ] ]; reflexivity. Qed.
+
+Lemma hd_is_cons c r : hd_is c (c :: r) = Some r.
+Proof. unfold hd_is. now rewrite N.eqb_refl. Qed.
+
+Lemma ident_ok_inv v : ident_ok isLetter isNumber v = true -> v <> [] /\ forallb is_ident v = true.
+Proof. unfold ident_ok. destruct v; cbn; [discriminate|]. intros H. split; [discriminate|exact H]. Qed.
+
+Lemma lex_fp_loop_complete tail : DotTail tail -> forall fuel rest ts lf,
+  stops is_ident rest -> not_dot rest -> (length tail < fuel)%nat -> (length ts + length tail <= 64)%nat ->
+  lex_field_path_loop isLetter isNumber fuel (Lst (spell tail ++ rest) ts lf) = Ok (Lst rest (rev tail ++ ts) lf).
+Proof.
+  induction 1 as [|v tail Hv Ht IH]; intros fuel rest ts lf Hs Hd Hf Hl; (destruct fuel as [|f]; [cbn in Hf; lia|]).
+  - cbn. unfold not_dot in Hd. now rewrite Hd.
+  - cbn [lex_field_path_loop inp]. cbn [length] in Hf, Hl.
+    change (spell (tDot :: Tok TIdent v :: tail) ++ rest) with (46 :: (v ++ spell tail) ++ rest).
+    rewrite hd_is_cons, emit_do by (cbn; lia). cbn [bind last toks].
+    destruct (ident_ok_inv _ Hv) as [Hne Hp].
+    rewrite <- app_assoc, lex_run_complete; auto.
+    + cbn [bind]. rewrite IH; auto; try (cbn [length]; lia).
+      cbn [rev]. rewrite <- !app_assoc. reflexivity.
+    + destruct tail as [|t tail']; [cbn; exact Hs|]. inversion Ht; subst. cbn. apply sane_ident. cbn; auto.
+    + cbn [length]. lia.
+Qed.
+
+Lemma lex_field_path_complete fp : FieldPath fp -> forall fuel rest ts lf,
+  stops is_ident rest -> not_dot rest -> (length fp <= fuel)%nat -> (length ts + length fp <= 64)%nat ->
+  lex_field_path isLetter isNumber fuel (Lst (spell fp ++ rest) ts lf) = Ok (Lst rest (rev fp ++ ts) lf).
+Proof.
+  intros Hfp fuel rest ts lf Hs Hd Hf Hl.
+  destruct (tail_of_FieldPath _ Hfp) as (v & tail & -> & Hv & Ht).
+  destruct (ident_ok_inv _ Hv) as [Hne Hp]. cbn [length] in Hf, Hl.
+  unfold lex_field_path. change (spell (Tok TIdent v :: tail) ++ rest) with ((v ++ spell tail) ++ rest).
+  rewrite <- app_assoc, lex_run_complete; auto; try lia.
+  - cbn [bind]. rewrite (lex_fp_loop_complete _ Ht); auto; try (cbn [length]; lia).
+    cbn [rev]. rewrite <- !app_assoc. reflexivity.
+  - destruct tail as [|t tail']; [cbn; exact Hs|]. inversion Ht; subst. cbn. apply sane_ident. cbn; auto.
+Qed.
+
+Definition SegComplete (SG : list token -> bool -> Prop) (lexvar : option (lst -> outcome lst)) : Prop :=
+  forall new b rest ts, SG new b -> Delim rest -> (length ts + length new <= 64)%nat ->
+    lex_segment isLetter isNumber lexvar (Lst (spell new ++ rest) ts false) = Ok (Lst rest (rev new ++ ts) b).
+
+Lemma lit_ok_inv v : lit_ok isLetter isNumber v = true ->
+  exists x v', v = x :: v' /\ isLetter x = true /\ forallb is_literal v = true.
+Proof.
+  unfold lit_ok. destruct v as [|x v']; [discriminate|]. intros H. apply andb_true_iff in H.
+  destruct H as [A B]. exists x, v'. auto.
+Qed.
+
+Lemma pseg_complete lexvar new b rest ts :
+  PSeg new b -> Delim rest -> (length ts + length new <= 64)%nat ->
+  lex_segment isLetter isNumber lexvar (Lst (spell new ++ rest) ts false) = Ok (Lst rest (rev new ++ ts) b).
+Proof.
+  intros HP HD Hl. destruct HP as [v Hv| |].
+  - destruct (lit_ok_inv _ Hv) as (x & v' & -> & Hx & Hp). cbn [length] in Hl.
+    unfold lex_segment. cbn [inp spell map concat tval app]. rewrite app_nil_r. cbn [app]. rewrite Hx.
+    change (x :: v' ++ rest) with ((x :: v') ++ rest).
+    rewrite lex_run_complete; auto; [discriminate|now apply Delim_literal|lia].
+  - cbn [length] in Hl. unfold lex_segment. cbn [inp spell map concat tval app tStar].
+    rewrite (sane_letter 42) by (cbn; auto). cbn [N.eqb Pos.eqb]. rewrite (Delim_nostar _ HD).
+    rewrite emit_do by (cbn; lia). reflexivity.
+  - cbn [length] in Hl. unfold lex_segment. cbn [inp spell map concat tval app tStarStar].
+    rewrite (sane_letter 42) by (cbn; auto). cbn [N.eqb Pos.eqb]. rewrite hd_is_cons.
+    rewrite emit_do by (cbn; lia). reflexivity.
+Qed.
+
+Lemma segs_complete (SG : list token -> bool -> Prop) lexvar :
+  SegComplete SG lexvar ->
+  forall new b, SegsG SG new b -> forall fuel rest ts,
+  Delim rest -> hd_is 47 rest = None -> (length new < fuel)%nat -> (length ts + length new <= 64)%nat ->
+  lex_segments isLetter isNumber fuel lexvar (Lst (spell new ++ rest) ts false) = Ok (Lst rest (rev new ++ ts) b).
+Proof.
+  intros HC new b HS. induction HS as [new b G|new rest' b G HS IH]; intros fuel rest ts HD Hns Hf Hl;
+    (destruct fuel as [|f]; [lia|]); cbn [lex_segments].
+  - rewrite (HC new b rest ts G HD Hl). cbn [bind inp]. now rewrite Hns.
+  - rewrite app_length in Hf, Hl. cbn [length] in Hf, Hl.
+    rewrite spell_app, <- app_assoc. change (spell (tSlash :: rest') ++ rest) with (47 :: spell rest' ++ rest).
+    rewrite (HC new false (47 :: spell rest' ++ rest) ts G); [|cbn; auto|lia].
+    cbn [bind inp last]. rewrite hd_is_cons. rewrite emit_do by (cbn [toks]; rewrite app_length, rev_length; lia).
+    cbn [bind last toks]. rewrite IH; auto; try (cbn [length]; rewrite ?app_length, ?rev_length; cbn [length]; lia).
+    rewrite rev_app_distr. cbn [rev]. rewrite <- !app_assoc. reflexivity.
+Qed.
+
+Lemma pseg_SegComplete lexvar : SegComplete PSeg lexvar.
+Proof. intros new b rest ts G HD Hl. now apply pseg_complete. Qed.
+
+Lemma variable_complete fuel new b rest ts :
+  Seg new b -> (forall ts0 b0, PSeg ts0 b0 -> new <> ts0) -> Delim rest ->
+  (length new <= fuel)%nat -> (length ts + length new <= 64)%nat ->
+  lex_variable isLetter isNumber fuel (Lst (spell new ++ rest) ts false) = Ok (Lst rest (rev new ++ ts) b).
+Proof.
+  intros G Hnp HD Hf Hl. destruct G as [new b G|fp Hfp|fp ps b Hfp Hps].
+  - exfalso. now apply (Hnp new b G).
+  - cbn [length] in Hf, Hl. rewrite app_length in Hf, Hl. cbn [length] in Hf, Hl.
+    unfold lex_variable. change (spell (tOpen :: fp ++ [tClose]) ++ rest) with (123 :: spell (fp ++ [tClose]) ++ rest).
+    cbn [inp]. rewrite hd_is_cons, emit_do by (cbn; lia). cbn [bind].
+    rewrite spell_app, <- app_assoc. change (spell [tClose] ++ rest) with (125 :: rest).
+    rewrite (lex_field_path_complete _ Hfp); [|cbn; apply sane_ident; cbn; auto 10|reflexivity|lia|cbn [length]; lia].
+    cbn [bind inp]. change (hd_is 61 (125 :: rest)) with (@None str). rewrite hd_is_cons.
+    rewrite emit_do by (cbn [toks length]; rewrite app_length, rev_length; cbn [length]; lia).
+    cbn [last toks rev]. rewrite rev_app_distr. cbn [rev app]. rewrite <- !app_assoc. reflexivity.
+  - cbn [length] in Hf, Hl. rewrite !app_length in Hf, Hl. cbn [length] in Hf, Hl. rewrite app_length in Hf, Hl. cbn [length] in Hf, Hl.
+    unfold lex_variable.
+    change (spell (tOpen :: fp ++ tEq :: ps ++ [tClose]) ++ rest) with (123 :: spell (fp ++ tEq :: ps ++ [tClose]) ++ rest).
+    cbn [inp]. rewrite hd_is_cons, emit_do by (cbn; lia). cbn [bind].
+    rewrite spell_app, <- app_assoc. change (spell (tEq :: ps ++ [tClose]) ++ rest) with (61 :: spell (ps ++ [tClose]) ++ rest).
+    rewrite (lex_field_path_complete _ Hfp); [|cbn; apply sane_ident; cbn; auto 10|reflexivity|lia|cbn [length]; lia].
+    cbn [bind inp]. rewrite hd_is_cons.
+    rewrite emit_do by (cbn [toks length]; rewrite app_length, rev_length; cbn [length]; lia).
+    cbn [bind last toks]. rewrite spell_app, <- app_assoc. change (spell [tClose] ++ rest) with (125 :: rest).
+    rewrite (segs_complete PSeg None (pseg_SegComplete None) ps b Hps); [|cbn; auto|reflexivity|lia|
+      cbn [length]; rewrite app_length, rev_length; cbn [length]; lia].
+    cbn [bind inp]. rewrite hd_is_cons.
+    rewrite emit_do by (cbn [toks length]; rewrite !app_length, !rev_length; cbn [length]; rewrite app_length, rev_length; cbn [length]; lia).
+    cbn [last toks]. f_equal. f_equal.
+    cbn [rev]. rewrite !rev_app_distr. cbn [rev app]. rewrite rev_app_distr. cbn [rev app]. rewrite <- !app_assoc. reflexivity.
+Qed.
+
+
+(* every token of a derivation spells at least one rune: there are no more tokens than runes *)
+Definition nonempty_vals (ts : list token) : Prop := Forall (fun t => tval t <> []) ts.
+Lemma nonempty_vals_length ts : nonempty_vals ts -> (length ts <= length (spell ts))%nat.
+Proof.
+  induction 1 as [|t ts Ht _ IH]; [cbn; auto|]. rewrite spell_cons, app_length. cbn [length].
+  destruct (tval t); [contradiction|]. cbn [length]. lia.
+Qed.
+Lemma PSeg_nonempty ts b : PSeg ts b -> nonempty_vals ts.
+Proof.
+  intros [v Hv| |]; repeat constructor; cbn; try discriminate.
+  destruct (lit_ok_inv _ Hv) as (x & v' & -> & _). discriminate.
+Qed.
+Lemma SegsG_nonempty (SG : list token -> bool -> Prop) :
+  (forall ts b, SG ts b -> nonempty_vals ts) -> forall ts b, SegsG SG ts b -> nonempty_vals ts.
+Proof.
+  intros H ts b HS. induction HS as [ts b G|ts rest b G HS IH]; [now apply (H ts b)|].
+  apply Forall_app. split; [now apply (H ts false)|]. constructor; [cbn; discriminate|exact IH].
+Qed.
+Lemma FieldPath_nonempty fp : FieldPath fp -> nonempty_vals fp.
+Proof.
+  induction 1 as [v Hv|v rest Hv Hf IH]; repeat constructor; cbn; try discriminate; auto;
+    destruct (ident_ok_inv _ Hv) as [Hne _]; exact Hne.
+Qed.
+Lemma Seg_nonempty ts b : Seg ts b -> nonempty_vals ts.
+Proof.
+  intros [ts' b' G|fp Hfp|fp ps b' Hfp Hps].
+  - now apply (PSeg_nonempty ts' b').
+  - constructor; [cbn; discriminate|]. apply Forall_app. split; [now apply FieldPath_nonempty|]. repeat constructor. cbn; discriminate.
+  - constructor; [cbn; discriminate|]. apply Forall_app. split; [now apply FieldPath_nonempty|].
+    constructor; [cbn; discriminate|]. apply Forall_app. split.
+    + apply (SegsG_nonempty PSeg PSeg_nonempty ps b' Hps).
+    + repeat constructor. cbn; discriminate.
+Qed.
+
+Lemma SegsG_bound (SG : list token -> bool -> Prop) n ts b :
+  SegsG SG ts b -> (length ts <= n)%nat -> SegsG (fun ts b => SG ts b /\ (length ts <= n)%nat) ts b.
+Proof.
+  intros HS. induction HS as [ts b G|ts rest b G HS IH]; intros Hl.
+  - apply Ss_one. auto.
+  - rewrite app_length in Hl. cbn [length] in Hl. apply Ss_cons; [split; [exact G|lia]|apply IH; lia].
+Qed.
+
+Lemma lex_segment_open lv s rest0 :
+  inp s = 123 :: rest0 -> lex_segment isLetter isNumber (Some lv) s = lv s.
+Proof.
+  intros H. unfold lex_segment. rewrite H. rewrite (sane_letter 123) by (cbn; auto 10). reflexivity.
+Qed.
+
+Lemma seg_complete_top fuel :
+  SegComplete (fun ts b => Seg ts b /\ (length ts <= fuel)%nat) (Some (lex_variable isLetter isNumber fuel)).
+Proof.
+  intros new b rest ts [G Hf] HD Hl.
+  destruct G as [new b G'|fp Hfp|fp ps b Hfp Hps].
+  - now apply pseg_complete.
+  - rewrite <- (variable_complete fuel _ false rest ts (S_var _ _ fp Hfp)); auto.
+    + apply (lex_segment_open _ _ (spell (fp ++ [tClose]) ++ rest)). reflexivity.
+    + intros ts0 b0 HP E. destruct HP; discriminate E.
+  - rewrite <- (variable_complete fuel _ b rest ts (S_varpat _ _ fp ps b Hfp Hps)); auto.
+    + apply (lex_segment_open _ _ (spell (fp ++ tEq :: ps ++ [tClose]) ++ rest)). reflexivity.
+    + intros ts0 b0 HP E. destruct HP; discriminate E.
+Qed.
+
+Theorem lex_template_complete toks0 :
+  Tmpl toks0 -> (length toks0 <= 64)%nat -> lex_template isLetter isNumber (spell toks0) = Ok toks0.
+Proof.
+  intros HT Hl. unfold lex_template, lex_template_st.
+  destruct HT as [ss b HS|ss b v HS Hv].
+  - cbn [length] in Hl. rewrite app_length in Hl. cbn [length] in Hl.
+    set (t := spell (tSlash :: ss ++ [tEOF])).
+    assert (Et : t = 47 :: spell ss ++ []) by (unfold t; rewrite spell_cons, spell_app; cbn; now rewrite app_nil_r).
+    assert (Hlen0 : (length ss < length t)%nat).
+    { pose proof (nonempty_vals_length _ (SegsG_nonempty Seg Seg_nonempty ss b HS)). rewrite Et. cbn [length]. rewrite app_length. lia. }
+    assert (Hlen : (length ss <= S (length t))%nat) by lia.
+    rewrite Et at 1. rewrite hd_is_cons. rewrite emit_do by (cbn; lia). cbn [bind].
+    rewrite (segs_complete _ _ (seg_complete_top (S (length t))) ss b (SegsG_bound Seg _ ss b HS Hlen));
+      [|exact I|reflexivity|lia|cbn [length]; lia].
+    cbn [bind inp hd_is is_nil]. rewrite emit_do by (cbn [length]; rewrite app_length, rev_length; cbn [length]; lia).
+    cbn [bind toks]. f_equal. cbn [rev]. rewrite rev_app_distr, rev_involutive. reflexivity.
+  - cbn [length] in Hl. rewrite app_length in Hl. cbn [length] in Hl.
+    set (t := spell (tSlash :: ss ++ [tColon; Tok TLiteral v; tEOF])).
+    assert (Et : t = 47 :: spell ss ++ 58 :: v ++ []).
+    { unfold t. rewrite spell_cons, spell_app. cbn. now rewrite !app_nil_r. }
+    assert (Hlen0 : (length ss < length t)%nat).
+    { pose proof (nonempty_vals_length _ (SegsG_nonempty Seg Seg_nonempty ss b HS)). rewrite Et. cbn [length]. rewrite app_length. lia. }
+    assert (Hlen : (length ss <= S (length t))%nat) by lia.
+    rewrite Et at 1. rewrite hd_is_cons. rewrite emit_do by (cbn; lia). cbn [bind].
+    rewrite (segs_complete _ _ (seg_complete_top (S (length t))) ss b (SegsG_bound Seg _ ss b HS Hlen));
+      [|cbn; auto|reflexivity|lia|cbn [length]; lia].
+    cbn [bind inp]. rewrite hd_is_cons. rewrite emit_do by (cbn [length]; rewrite app_length, rev_length; cbn [length]; lia).
+    cbn [bind]. unfold lex_verb.
+    unfold verb_ok in Hv. apply andb_true_iff in Hv. destruct Hv as [Hv1 Hv2].
+    rewrite lex_run_complete; [|destruct v; [discriminate|discriminate]|exact Hv2|exact I|
+      cbn [length]; rewrite app_length, rev_length; cbn [length]; lia].
+    cbn [bind inp]. rewrite emit_do by (cbn [length]; rewrite app_length, rev_length; cbn [length]; lia).
+    cbn [bind toks]. f_equal. cbn [rev]. rewrite !rev_app_distr, rev_involutive. cbn [rev app]. rewrite <- !app_assoc. reflexivity.
+Qed.
+
+End Complete.
 End LexerProofs.
